@@ -34,7 +34,7 @@ def run(ctx):
 def replay(ctx, path):
     import json
     rp = json.load(open(path))["replay"]
-    if rp.get("mode") == "e2e":
+    if rp.get("mode") in ("e2e", "joinall"):
         from checks import c06e2e
         c06e2e.replay(ctx, path)
     else:
